@@ -22,7 +22,7 @@ ASSUMPTIONS = [
     "lines of one list hold disjoint groups of the sorted set (the canonical way devices print long lists)",
 ]
 EXHAUSTIVE = {"quick": True, "thorough": False}
-FLOORS = {"quick": {"patches_simulated": 20000, "commands_parsed": 20000, "multi_line_cases": 10000, "helper_roundtrips": 2000, "block_cases": 10000, "block_cases_with_changed_blocks": 5000, "lag_member_cases": 1500, "lists_spelled_with_blanks": 3000},
+FLOORS = {"quick": {"patches_simulated": 20000, "commands_parsed": 20000, "multi_line_cases": 10000, "helper_roundtrips": 2000, "block_cases": 10000, "block_cases_with_changed_blocks": 5000, "lag_member_cases": 1500, "lists_spelled_with_blanks": 3000, "long_first_lists": 40},
           "thorough": {"patches_simulated": 600000, "commands_parsed": 600000, "multi_line_cases": 300000, "helper_roundtrips": 50000, "block_cases": 300000, "block_cases_with_changed_blocks": 150000, "lag_member_cases": 40000}}
 U_QUICK = [2, 3, 4, 7, 8]
 U_THOROUGH = [2, 3, 4, 7, 8, 10, 11, 20]
@@ -262,6 +262,9 @@ def run_kind(spec, acc):
         so = sorted(set(rng.sample(base, min(n1, 80)) + [x + 1 for x in rng.sample(base, 10)]))
         sn = sorted(set(rng.sample(base, min(n2, 80)) + [x + 1 for x in rng.sample(base, 10) if x < 4094]))
         so = [x for x in so if x <= 4094]
+        if _ % 4 == 3:
+            so = []        # the port (or the device) had no list at all: every range of a long first list must survive the later commands
+            acc.count("long_first_lists", 1 if len(ranges(sn)) > 5 else 0)
         sp = lambda s: [s] if KINDS[kind][4] == 1 or len(s) < 4 else [s[:len(s) // 3], s[len(s) // 3: 2 * len(s) // 3], s[2 * len(s) // 3:]]
         check_case(kind, [g for g in sp(so) if g], [g for g in sp(sn) if g], acc)
         acc.count("random_large_cases")
